@@ -239,14 +239,7 @@ func destVerdict(st map[string][]byte, s c13setup, data []byte) (ok bool, which,
 // copies of the leftover state and checks the result is exactly data2.
 func c13Recover(r *core.Run, root string, s c13setup, u *c13unit) {
 	left := treeState(root)
-	for _, rv := range []struct {
-		name string
-		v    byte
-		n    int
-	}{{"shorter", vShort, s.Size / 3}, {"longer", vLong, s.Size + 13}} {
-		if rv.name == "shorter" && s.Size == 0 {
-			continue
-		}
+	for _, rv := range c13RecSizes(s.Size) {
 		cp := root + "-rec-" + rv.name
 		os.RemoveAll(cp)
 		if err := copyTree(root, cp); err != nil {
@@ -312,9 +305,14 @@ func c13CrashAndFaults(r *core.Run) (missing []string) {
 		}
 	}
 	base := mkdirFresh(r.Scratch, "c13x")
-	childArgs := func(root string, s c13setup) []string {
-		return []string{"c13-child", "ac", root, "d", "f", fmt.Sprint(vData), fmt.Sprint(s.Size)}
+	// the interrupted call is the (pre+1)-th AtomicCreate of its process
+	preOf := func(si int) int { return si % 3 }
+	childArgs := func(root string, si int) []string {
+		return []string{"c13-child", "ac", root, "d", "f", fmt.Sprint(vData), fmt.Sprint(setups[si].Size), fmt.Sprint(preOf(si))}
 	}
+	// every strace run of this part happens in a fresh PID namespace (when
+	// available) so that interrupted and recovery children share one pid
+	ns := c13PidNS(r, bin)
 	recs := make([]*straceResult, len(setups))
 	recState := make([]map[string][]byte, len(setups))
 	prepErr := make([]string, len(setups))
@@ -324,7 +322,7 @@ func c13CrashAndFaults(r *core.Run) (missing []string) {
 		if prepErr[i] = c13Prepare(root, setups[i]); prepErr[i] != "" {
 			return
 		}
-		recs[i] = runStrace(bin, d, filepath.Join(d, "log"), "", childArgs(root, setups[i])...)
+		recs[i] = runStraceNS(ns, bin, d, filepath.Join(d, "log"), "", childArgs(root, i)...)
 		recState[i] = treeState(root)
 	})
 	var plan []c13unit
@@ -407,7 +405,7 @@ func c13CrashAndFaults(r *core.Run) (missing []string) {
 				os.RemoveAll(d)
 				continue
 			}
-			sr := runStrace(bin, d, filepath.Join(d, "log"), inj, childArgs(root, s)...)
+			sr := runStraceNS(ns, bin, d, filepath.Join(d, "log"), inj, childArgs(root, u.Setup)...)
 			r.Eval(1)
 			if sr.Err != nil || sr.T == nil {
 				os.RemoveAll(d)
@@ -467,6 +465,12 @@ func c13CrashAndFaults(r *core.Run) (missing []string) {
 				r.Count("faults_surfaced_as_panic", 1)
 			}
 			c13Recover(r, root, s, &u)
+			if ns {
+				where := u.Kind + "-at-" + u.Sys
+				c13RecoverIdentity(r, bin, root, childPid(sr.Stderr), preOf(u.Setup), c13RecSizes(s.Size), where,
+					fmt.Sprintf("a %s at %s of AtomicCreate(d,f,%s) (setup %s, the call was number %d of its process)", u.Kind, u.Sys, describe(data, true), s.name(), preOf(u.Setup)+1),
+					map[string]interface{}{"fault_point": u, "setup": s}, &u.viol, &u.Rec)
+			}
 			os.RemoveAll(d)
 		}
 		if !u.Landed {
@@ -664,6 +668,7 @@ func runC13(r *core.Run) (bool, string) {
 	r.SetRule("(a) crash: for data sizes {0,1,11,4096,1MiB} x destination {absent, shorter old content, longer old content} (old content created by the library itself) a recording run under strace lists the syscalls of DirFs.AtomicCreate(d,f,data) between BEGIN/END marker writes; " +
 		"EVERY one of them is then replaced by a SIGKILL before it executes (exhaustive over the file-system syscalls of the call) and d/f must be exactly its previous state or exactly data; " +
 		"then, in copies of the SAME leftover tree, a complete AtomicCreate(d,f,data2) with data2 shorter and (separately) longer than data must leave exactly data2. " +
+		"The interrupted call is the 1st, 2nd or 3rd AtomicCreate of its process (complete calls for another name come first), and every recovery runs in three process identities: a different pid (in-process), and — strace and child started in a fresh PID namespace, where the child always gets the same pid — a process with the SAME pid as the interrupted one making the same number of calls before (same call index) or one more (other call index), each with data2 shorter than, as long as and longer than data; the result must be exactly data2 (the oracle never looks at staging names; recovery_identity_*_created_over_a_preexisting_leftover_* count, from the recovery run's own strace log, the runs whose call opened with O_CREAT a path that the interrupted call had left behind). The same same-pid recoveries follow every partial-write scenario. " +
 		"(b) fault: every open/write/fsync/rename-family syscall of the call fails once with EIO and ENOSPC (exhaustive): the call must not report ok (unless it re-issued the syscall successfully), d/f must be old or new, and the same recovery runs follow. " +
 		"(c) order, on each recorded successful call with non-empty data: a successful fsync/fdatasync of the staging descriptor (the descriptor returned by the open of the path later renamed onto d/f) after its last write and before the rename; writing d/f in place is a violation. " +
 		"(d) concurrency in a child process (library panics recovered per call; a fatal error kills only the child): 1-4 creators x 1-4 readers (Open+ReadAt of the whole file, List every 4th iteration) on one file, and creator pairs on (same dir, different names), (different dirs, same name), (same dir, same name) started together each round, on DirFs and MemFs; " +
@@ -674,6 +679,7 @@ func runC13(r *core.Run) (bool, string) {
 		"distinct = landed (setup, kill|errno, syscall, occurrence) points + concurrency scenarios + links observation classes")
 	r.Assume("kill -9 at a syscall boundary stands for a crash; real power loss is not produced: durability is decided on the recorded syscall order only")
 	r.Assume("MemFs readers do not Close (MemFs descriptors are inode numbers shared between openers — subject of C12); a DirFs List that misses the destination is counted inconclusive because List is documented as non-atomic")
+	r.Assume("a process in a fresh PID namespace with the pid of the interrupted process stands for a restarted pid-1 daemon, an exec or a reused pid; if PID namespaces are unavailable the same-pid layers are reported inconclusive")
 	r.Assume("crash enumeration starts from trees without leftover staging files; leftovers are exercised by the recovery calls that follow every crash/fault point")
 	missing := c13CrashAndFaults(r)
 	c13PartialWrite(r)
@@ -725,16 +731,36 @@ func c13PartialWrite(r *core.Run) {
 			}
 		}
 	}
+	ns := c13PidNS(r, bin)
+	pend := make([][]pendingViol, len(scs))
+	defer func() {
+		for _, pv := range pend {
+			for _, v := range pv {
+				r.Violate(v.sig, v.what, v.detail)
+			}
+		}
+	}()
 	core.Parallel(len(scs), 8, func(i int) {
 		s := scs[i]
-		root := filepath.Join(r.Scratch, fmt.Sprintf("c13-partial-%d", i))
+		root := filepath.Join(r.Scratch, fmt.Sprintf("c13-partial-%d", i), "root")
+		defer os.RemoveAll(filepath.Dir(root))
 		setup := c13setup{Size: s.Size, Dest: s.Dest}
 		if msg := c13Prepare(root, setup); msg != "" {
 			r.Inconclusive("partial-write-setup-failed")
 			return
 		}
 		before := treeState(root)
-		res := core.Exec(root, nil, 2*time.Minute, "", bin, "child", "c13-child", "aclimit", root, "d", "f", "9", fmt.Sprint(s.Size), fmt.Sprint(s.Limit))
+		pre := i % 3
+		var res core.ExecResult
+		if ns {
+			// under strace in a fresh PID namespace, so that the recovery
+			// children below can have the pid of this interrupted process
+			sr := runStraceNS(true, bin, filepath.Dir(root), root+".log", "", "c13-child", "aclimit", root, "d", "f", "9", fmt.Sprint(s.Size), fmt.Sprint(s.Limit), fmt.Sprint(pre))
+			res = sr.Res
+			os.Remove(root + ".log")
+		} else {
+			res = core.Exec(root, nil, 2*time.Minute, "", bin, "child", "c13-child", "aclimit", root, "d", "f", "9", fmt.Sprint(s.Size), fmt.Sprint(s.Limit))
+		}
 		after := treeState(root)
 		r.Eval(1)
 		reported := "no END marker"
@@ -759,6 +785,15 @@ func c13PartialWrite(r *core.Run) {
 		default:
 			r.Count("partial_write_old_or_new", 1)
 			r.Sample(12, detail)
+		}
+		if ns && !strings.HasPrefix(reported, "ok") && reported != "no END marker" {
+			// what the interrupted call left behind is at most Limit bytes long:
+			// recovery data shorter, as long and longer than that
+			var rec []string
+			c13RecoverIdentity(r, bin, root, childPid(res.Stderr), pre, c13RecSizes(s.Limit), "partial-write",
+				fmt.Sprintf("an AtomicCreate(d,f,%d bytes) cut short by a file size limit of %d bytes (destination before: %s; the call was number %d of its process and reported %q)", s.Size, s.Limit, s.Dest, pre+1, reported),
+				detail, &pend[i], &rec)
+			r.Count("partial_write_runs_followed_by_same_pid_recovery", 1)
 		}
 	})
 }
